@@ -210,6 +210,8 @@ def features(op):
         for a in sels:
             if a.get("sels"):
                 dups(a["sels"])
+    import hashlib
+    f["op_id"] = hashlib.sha1(json.dumps(op, sort_keys=True).encode()).hexdigest()[:12]
     f["dup_key"] = False
     f["dup_key_cond_mix"] = False
     f["dup_key_cond_last"] = False
